@@ -95,6 +95,11 @@ type Exec struct {
 	notes    map[string]bool
 	timeout  int
 	failed   string // fatal: outside subset etc.
+	modelVals  []string
+	modelNames []string
+	noMerge    bool
+	ipdom      map[*ssa.BasicBlock]*ssa.BasicBlock
+	ipdomDone  bool
 	retCover bool
 }
 
@@ -326,6 +331,8 @@ func (x *Exec) ob(kind, site, desc string, in ssa.Instruction) *Oblig {
 			o.Names = append(o.Names, "any:"+n+l.Path)
 		}
 	}
+	o.Values = append(o.Values, x.modelVals...)
+	o.Names = append(o.Names, x.modelNames...)
 	return o
 }
 
@@ -380,26 +387,48 @@ func (x *Exec) finish(s *State) {
 
 type pathAbort struct{ reason string }
 
-// run executes from block b (entered from pred) until the path ends.
-func (x *Exec) run(s *State, b *ssa.BasicBlock, pred *ssa.BasicBlock) {
+type guardAt struct {
+	at int
+	c  string
+}
+
+// run executes from block b (entered from pred). Paths that reach the block
+// stop are returned without executing it (arrPred records where they came
+// from); every other path runs to its end (return, panic, loop back edge) and
+// is handed to the solver. Branches whose two sides meet again at the
+// branch's immediate post-dominator are merged there into one state
+// (path conditions become guards), which keeps the number of paths linear in
+// straight-line code with many independent tests.
+func (x *Exec) run(s *State, b *ssa.BasicBlock, pred *ssa.BasicBlock, stop *ssa.BasicBlock) []*State {
+	var arrived []*State
+	skipPhis := false
+	if s.mergedAtStop && pred == nil {
+		// a state merged at this very block: its phis are already in place
+		skipPhis = true
+		s.mergedAtStop = false
+	}
 	for {
 		if x.failed != "" {
-			return
+			return arrived
+		}
+		if stop != nil && b == stop {
+			s.arrPred = pred
+			return append(arrived, s)
 		}
 		s.depth++
 		if s.depth > 4000 {
 			x.failed = "path too long (unbounded unrolling?)"
-			return
+			return arrived
 		}
 		// loop head handling
 		if li := x.loops[b.Index]; li != nil {
 			if pred != nil && li.body[pred] {
 				x.loopBack(s, li, pred)
 				x.finish(s)
-				return
+				return arrived
 			}
 			x.loopEnter(s, li, pred)
-		} else {
+		} else if !skipPhis {
 			// ordinary phis
 			var vals []Value
 			var phis []*ssa.Phi
@@ -416,6 +445,7 @@ func (x *Exec) run(s *State, b *ssa.BasicBlock, pred *ssa.BasicBlock) {
 				s.env[p] = vals[i]
 			}
 		}
+		skipPhis = false
 		var next *ssa.BasicBlock
 		for _, in := range b.Instrs {
 			if _, ok := in.(*ssa.Phi); ok {
@@ -432,13 +462,61 @@ func (x *Exec) run(s *State, b *ssa.BasicBlock, pred *ssa.BasicBlock) {
 					x.npaths++
 					if x.npaths > x.budget {
 						x.failed = fmt.Sprintf("path budget %d exceeded", x.budget)
-						return
+						return arrived
+					}
+					join := x.joinOf(b)
+					if join != nil && !x.noMerge {
+						base := len(s.events)
+						nuniv := len(s.univ)
+						s2 := s.clone()
+						s2.npath = x.npaths
+						s2.assume(not(c))
+						s2.guards = append(s2.guards[:len(s2.guards):len(s2.guards)], guardAt{base, not(c)})
+						s.assume(c)
+						s.guards = append(s.guards[:len(s.guards):len(s.guards)], guardAt{base, c})
+						ra := x.run(s, b.Succs[0], b, join)
+						rb := x.run(s2, b.Succs[1], b, join)
+						all := append(ra, rb...)
+						if x.failed != "" || len(all) == 0 {
+							return arrived
+						}
+						var cont []*State
+						if m := x.mergeStates(all, base, nuniv, join); m != nil {
+							cont = []*State{m}
+							// phis of the join block were computed during the merge
+							if join == stop {
+								m.arrPred = nil
+								m.mergedAtStop = true
+								return append(arrived, m)
+							}
+							s = m
+							pred, b = nil, join
+							skipPhis = true
+							goto continueOuter
+						} else {
+							cont = all
+						}
+						// no merge: continue each state separately
+						for k, st := range cont {
+							if k == len(cont)-1 {
+								s = st
+								pred, b = st.arrPred, join
+								if st.mergedAtStop && pred == nil {
+									skipPhis = true
+									st.mergedAtStop = false
+								}
+								goto continueOuter
+							}
+							arrived = append(arrived, x.run(st, join, st.arrPred, stop)...)
+						}
 					}
 					s2 := s.clone()
 					s2.npath = x.npaths
 					s2.assume(not(c))
+					s2.guards = append(s2.guards[:len(s2.guards):len(s2.guards)], guardAt{len(s.events), not(c)})
+					s.guards = append(s.guards[:len(s.guards):len(s.guards)], guardAt{len(s.events), c})
 					s.assume(c)
-					x.run(s2, b.Succs[1], b)
+					arrived = append(arrived, x.run(s2, b.Succs[1], b, stop)...)
 					next = b.Succs[0]
 				}
 			case *ssa.Jump:
@@ -446,27 +524,28 @@ func (x *Exec) run(s *State, b *ssa.BasicBlock, pred *ssa.BasicBlock) {
 			case *ssa.Return:
 				x.doReturn(s, t)
 				x.finish(s)
-				return
+				return arrived
 			case *ssa.Panic:
 				o := x.ob("panic", x.sites[in], "explicit panic reachable", in)
 				s.check(o, "false")
 				x.finish(s)
-				return
+				return arrived
 			default:
 				if !x.step(s, in) {
 					x.finish(s)
-					return
+					return arrived
 				}
 			}
 			if x.failed != "" {
-				return
+				return arrived
 			}
 		}
 		if next == nil {
 			x.finish(s)
-			return
+			return arrived
 		}
 		pred, b = b, next
+	continueOuter:
 	}
 }
 
